@@ -798,6 +798,16 @@ class Engine:
         w = self.pick([w for w in self.u.wires if len(w.pins)] or self.u.wires)
         if w is None:
             return None
+        if self.r.random() < 0.3 and any(isinstance(p, sdn.OuterPin) for p in w.pins):
+            # a reorder whose members are named BY VALUE: handles built from (instance, inner pin) stand for the instance pins
+            L = list(w.pins)
+            self.r.shuffle(L)
+            L = [sdn.OuterPin.from_instance_and_inner_pin(p.instance, p.inner_pin)
+                 if isinstance(p, sdn.OuterPin) and p.instance is not None and self.r.random() < 0.6 else p for p in L]
+
+            def fn():
+                w.pins = list(L)
+            return Op("Wire.pins=", fn, "pins=(valid-by-value-handles,%d)" % len(L), "valid", w, (L,))
         return self._setter(w, "pins", "Wire.pins=", self.u.ipins)
 
     # ------------------------------------------------------------------ top instance
